@@ -164,9 +164,10 @@ theorem breaker_transparent (h : Handler) (st : St) : apply .breaker h st = h st
 
 example : (apply .instantAck scripted (exSt [.ret [] none])).2.log = [⟨false, false, true, .absent⟩] := by decide
 
-/-- **handler starts no faster than the configured rate**, over the abstract one-slot ticker of period `d`:
-    in every run the ticker admits, `n` further starts after the `i`-th take at least `(n-1)·d`; hence a
-    window of length `L` contains at most `L/d + 2` starts (one tick may wait in the slot). -/
+/-- **handler starts no faster than the configured rate**, over the abstract one-slot ticker of period `d` with punctual
+    timers: in every run the ticker admits, `n` further starts after the `i`-th take at least `(n-1)·d`; hence a
+    window of length `L` contains at most `L/d + 2` starts (one tick may wait in the slot).  Without the punctuality
+    assumption see `throttle_lifetime_rate`. -/
 theorem throttle_rate (d : Nat) (run : List Start) (hv : validRun d run = true) (i n : Nat) (hn : 1 ≤ n)
     (hin : i + n < run.length) :
     (run[i]'(by omega)).time + (n - 1) * d ≤ (run[i + n]).time := by
@@ -190,6 +191,30 @@ theorem throttle_window_count (d : Nat) (hd : 0 < d) (run : List Start) (hv : va
     have h2 : (n - 1) * d ≤ L := by omega
     have h3 : n - 1 ≤ L / d := (Nat.le_div_iff_mul_le hd).mpr h2
     omega
+
+/-- the rate over the life of the ticker, without assuming punctual timers: the n-th handler start happens no earlier
+    than `n·d` after the ticker was created (n starts need n distinct ticks, none delivered before its nominal time);
+    hence at most `t/d` starts in the first `t` time units.  This is the inequality the harness samples on the real clock. -/
+theorem throttle_lifetime_rate (d : Nat) (run : List Start) (hv : laxRun d run = true) (n : Nat) (hn : n < run.length) :
+    (n + 1) * d ≤ (run[n]).time := by
+  have h := laxRun_nth d run 1 hv (by
+    intro a ha
+    cases run with
+    | nil => simp at ha
+    | cons x rest =>
+      simp at ha; subst ha
+      cases rest with
+      | nil => simp only [laxRun, Bool.and_eq_true, decide_eq_true_eq] at hv; exact hv.1
+      | cons b r2 => simp only [laxRun, Bool.and_eq_true, decide_eq_true_eq] at hv; exact hv.1.1.1) n hn
+  rw [Nat.add_comm] at h
+  exact h
+
+theorem throttle_valid_is_lax (d : Nat) (run : List Start) (hv : validRun d run = true) : laxRun d run = true :=
+  laxRun_of_validRun d run hv
+
+/-- a late timer: tick 2 (nominal time 20) is delivered at 109, right after an idle receiver took tick 1 at 108 – admitted
+    by `laxRun`, excluded by the punctual `validRun` -/
+example : laxRun 10 [⟨108, 1⟩, ⟨109, 2⟩, ⟨110, 11⟩] = true ∧ validRun 10 [⟨108, 1⟩, ⟨109, 2⟩, ⟨110, 11⟩] = false := by decide
 
 /-- the deterministic ticker model yields admissible runs for all request times -/
 theorem throttle_model_admissible (d : Nat) (hd : 0 < d) (reqs : List Nat) (ps pt : Nat) :
@@ -370,6 +395,66 @@ theorem retry_own_attempts_all_fail (m : Nat) (o : List Out) (e : Err) (st : St)
   rw [retryLoop_scripted_all_fail o e]
   · simp; omega
   · rfl
+
+/-- **Retry's own rule, explicitly**: around the scripted handler the reference Retry makes exactly
+    `ownAttempts MaxRetries script` calls – one, then after a failure one more until a call does not fail, at most
+    max(MaxRetries, 1) retries -/
+theorem retry_own_attempts (m : Nat) (st : St) :
+    (runC false [.retry m] scripted st).2.log.length = st.log.length + ownAttempts m st.script := by
+  simp only [runC, applyC, retry, Bool.false_and]
+  rw [scripted_eq]
+  cases h : headRes st.script with
+  | panic v => simp [ownAttempts, h, Res.isErr]
+  | ret o e =>
+    cases e with
+    | none => simp [ownAttempts, h, Res.isErr]
+    | some e =>
+      simp only [ownAttempts, h, Res.isErr, if_true]
+      rw [retryLoop_scripted_attempts]
+      simp; omega
+
+/-- the case of the statement: one Retry with any number (in particular up to two) of the simple middlewares around it
+    and/or inside it, in any order, none of them an already expired Timeout outside the Retry – the attempt count is Retry's own; when only
+    middlewares that do not change the error (Timeout, CorrelationID, InstantAck, Throttle, CircuitBreaker,
+    DelayOnError) are involved it is `ownAttempts` of the handler's own results -/
+theorem compose_with_retry_around_and_inside (outer inner : List Mw) (m : Nat)
+    (ho : ∀ x ∈ outer, x.isRetry = false ∧ x ≠ .timeout true) (hi : ∀ x ∈ inner, x.isRetry = false)
+    (st : St) (hd : st.ctx.done = false) :
+    run (outer ++ .retry m :: inner) scripted st = runC false (outer ++ .retry m :: inner) scripted st := by
+  apply compose_with_retry _ _ scripted scripted_ctxNeutral st hd
+  clear hd
+  induction outer with
+  | nil =>
+    -- Retry outermost: whatever is inside (an expired Timeout included) is fine
+    have : ∀ l : List Mw, (∀ x ∈ l, x.isRetry = false) → retryOutsideExpired l = true := by
+      intro l
+      induction l with
+      | nil => intro _; rfl
+      | cons x rest ih =>
+        intro hl
+        have hr := ih (fun y hy => hl y (List.mem_cons_of_mem _ hy))
+        cases x with
+        | timeout e =>
+          cases e with
+          | true =>
+            simp only [retryOutsideExpired, noRetry, List.all_eq_true, Bool.not_eq_true']
+            intro y hy; exact hl y (List.mem_cons_of_mem _ hy)
+          | false => simpa [retryOutsideExpired] using hr
+        | _ => simpa [retryOutsideExpired] using hr
+    simpa [retryOutsideExpired] using this inner hi
+  | cons x rest ih =>
+    have hx := ho x (List.mem_cons_self ..)
+    have hr := ih (fun y hy => ho y (List.mem_cons_of_mem _ hy))
+    cases x with
+    | timeout e =>
+      cases e with
+      | true => exact absurd rfl hx.2
+      | false => simpa [retryOutsideExpired] using hr
+    | _ => simpa [retryOutsideExpired] using hr
+
+example : ownAttempts 3 [.ret [] (some (.base "x"))] = 4 ∧ ownAttempts 0 [.ret [] (some (.base "x"))] = 2 ∧
+    ownAttempts 3 [.ret [] (some (.base "x")), .ret [] none] = 2 ∧
+    ownAttempts 3 [.ret [] (some (.base "x")), .panic .nil] = 2 ∧ ownAttempts 3 [.ret [] none] = 1 := by decide
 
 /-- non-vacuity: Retry(Timeout(h)), Timeout(Retry(h)), Retry(Recoverer(Timeout0(h))) with a failing handler make
     1+MaxRetries attempts; Timeout0(Retry(h)) – the excluded arrangement – makes one -/
